@@ -104,6 +104,15 @@ def _recipe(path, u):
         r['points'] = [[q * math.cos(6 * u[(i + 2) % len(u)]), q * math.sin(6 * u[(i + 2) % len(u)])] for i, q in enumerate(rr)]
         if path.endswith('.Kenamond1') and nondefault:
             r['kwargs'] = dict(x_d=(n(6, -2.0, 2.0), n(7, -2.0, 2.0)), D=n(8, 0.5, 3.0), t_d=n(9, -1.0, 2.0))
+        if u[2] >= 0.6:          # three-dimensional variant of the same layout
+            r['kwargs'] = dict(r['kwargs'], geometry=3)
+            if 'x_d' in r['kwargs']:
+                r['kwargs']['x_d'] = r['kwargs']['x_d'] + (n(10, -2.0, 2.0),)
+            elif path.endswith('.Kenamond3'):
+                r['kwargs']['x_d'] = (0.0, 0.0, 5.0)
+            elif path.endswith('.Kenamond1'):
+                r['kwargs']['x_d'] = (0.0, 0.0, 0.0)
+            r['points'] = [[p_[0] * math.cos(3 * u[(i + 5) % len(u)]), p_[0] * math.sin(3 * u[(i + 5) % len(u)]), p_[1]] for i, p_ in enumerate(r['points'])]
         return r
     if '.mader.' in path:
         k = max(N, 2)
@@ -113,6 +122,8 @@ def _recipe(path, u):
         return r
     if '.noh2.' in path or '.noh.' in path:
         r.update(points=radii(0.05, 1.0), t=0.5)
+        if u[2] < 0.35 and '.noh.' in path:
+            r['points'][int(u[3] * len(r['points'])) % len(r['points'])] = 0.0         # the centre itself is a valid point
         if nondefault:
             r['kwargs'] = dict(gamma=n(6, 1.2, 3.0))
             if path.endswith('.Noh'):
